@@ -562,3 +562,4 @@ MANIFEST = {
 }
 MANIFEST["text"] += ' Bare uncertain numbers (ufloat, nominal 0 and non-0) against 6 operand kinds x 6 operators x both orders: refused against dimensional operands, propagated against dimensionless ones.'
 MANIFEST["text"] += " Exponent notation: 6 measurements x 4 exponent specs x 8 flavours (plain, D, C, P, H, L, ~P, ~H): mantissa, error and exponent are decoded from each flavour's markup and must denote the measurement to half a unit of the last printed digit."
+MANIFEST["text"] += ' 13 neutral-element expressions ((m + 0) - m, sum([a, b]) - (a + b), (m * 1) - m, ...) are among the correlated ones.'
